@@ -260,7 +260,11 @@ Proof.
   induction cands as [|c t IH]; simpl; intros nodes fdel ready deleted nodes' e dl err H.
   - inversion H; subst. split; [intros n0 a0 t0 []|]. split; reflexivity.
   - destruct (call_result true (lookup fdel c)) eqn:Ec.
-    + destruct (delete_all (upd nodes c (set_del (nodes c) true)) fdel ready t (tl deleted)) as [[[n1 e1] d1] er] eqn:E.
+    + destruct (n_gone (nodes c)).
+      { destruct (delete_all nodes fdel ready t (tl deleted)) as [[[n1 e1] d1] er] eqn:E.
+        inversion H; subst; clear H. apply IH in E. destruct E as [A [M N]]. split; [|split]; auto.
+        intros n a t0 Hin. destruct (A n a t0 Hin) as [? [? ?]]; auto. }
+      destruct (delete_all (upd nodes c (set_del (nodes c) true)) fdel ready t (tl deleted)) as [[[n1 e1] d1] er] eqn:E.
       inversion H; subst; clear H. apply IH in E. destruct E as [A [M N]].
       split; [|split].
       * intros n a t0 [Heq|Hin]; [inversion Heq; subst; auto | destruct (A n a t0 Hin) as [? [? ?]]; auto].
@@ -414,6 +418,11 @@ Proof.
     split; [discriminate|]. split; [apply Hw; [apply incl_refl | reflexivity | assumption]|].
     split; [reflexivity | right; reflexivity]. }
   destruct (existsb (in_queue (s_q s)) cands) eqn:Eb.
+  { inversion H; subst; clear H. simpl.
+    split; [reflexivity|]. split; [intros _; split; [reflexivity | intros; reflexivity]|].
+    split; [discriminate|]. split; [apply Hw; [apply incl_refl | reflexivity | assumption]|].
+    split; [reflexivity | right; reflexivity]. }
+  destruct (existsb (fun c => n_gone (s_nodes s c)) cands).
   { inversion H; subst; clear H. simpl.
     split; [reflexivity|]. split; [intros _; split; [reflexivity | intros; reflexivity]|].
     split; [discriminate|]. split; [apply Hw; [apply incl_refl | reflexivity | assumption]|].
@@ -678,6 +687,7 @@ Proof.
   - apply (inv_weaken s); simpl; auto using incl_refl.
   - apply (inv_weaken s); simpl; auto using incl_refl.
   - constructor; simpl; try (intros; contradiction); auto. constructor.
+  - apply (inv_weaken s); simpl; auto using incl_refl.
 Qed.
 
 Lemma step_inv : forall s o, inv s -> inv (fst (step s o)).
@@ -894,6 +904,8 @@ Proof.
     simpl in E. inversion E; subst. split; [assumption | discriminate].
   - pose proof (env_facts _ _ _ _ _ Hinv E) as Hf; simpl in Hf. destruct Hf as [-> [-> _]].
     simpl in E. inversion E; subst. split; [intros c [] | discriminate].
+  - pose proof (env_facts _ _ _ _ _ Hinv E) as Hf; simpl in Hf. destruct Hf as [-> [-> _]].
+    simpl in E. inversion E; subst. split; [assumption | discriminate].
 Qed.
 
 (* as long as no Delete call fails on all its attempts, a command that is given up - replacement gone
@@ -1001,16 +1013,16 @@ Proof. intros n ops. apply trace_forall; [exact start_failure_inert_step | apply
 
 Lemma cleanup_restores_step : forall s o, inv s -> cleanup_restores (ostep_of s o).
 Proof.
-  intros s o Hinv. unfold ostep_of, cleanup_restores. simpl o_ret. simpl o_snap. intros Hc n Hlt Ho Hm.
+  intros s o Hinv. unfold ostep_of, cleanup_restores. simpl o_ret. simpl o_snap. intros Hc n Hlt Ho Hm Hg.
   destruct o; simpl in Hc; try discriminate.
   destruct fut; [|discriminate]. destruct fcl; [|discriminate].
   simpl in Hc |- *. destruct (cleanup s [] []) as [s' [r e]] eqn:E. simpl in Hc |- *.
   destruct r; try discriminate.
   pose proof (cleanup_facts _ _ _ _ _ _ Hinv E) as [_ [_ [Hn [_ [_ Hclean]]]]].
-  rewrite sn_len in Hlt. unfold sn_owner, sn_mview in Ho, Hm. rewrite sn_node_in in Ho, Hm by assumption.
-  simpl in Ho, Hm. unfold sn_fact. rewrite sn_node_in by lia. simpl.
+  rewrite sn_len in Hlt. unfold sn_owner, sn_mview, sn_fact in Ho, Hm, Hg. rewrite sn_node_in in Ho, Hm, Hg by assumption.
+  simpl in Ho, Hm, Hg. unfold sn_fact. rewrite sn_node_in by lia. simpl.
   apply Hclean; auto. unfold outdated. apply filter_In. split; [apply in_seq; lia|].
-  apply owner_none in Ho. rewrite Ho, Hm. reflexivity.
+  apply owner_none in Ho. rewrite Ho, Hm, Hg. reflexivity.
 Qed.
 
 Lemma cleanup_restores_service_l : forall n ops, Forall cleanup_restores (trace (init n) ops).
